@@ -87,6 +87,17 @@ func e2Family(tier string, amevs []int64) []*Job {
 				return ""
 			}(), CVs: 1, Bundles: true, RecReq: false, MaxDepth: 12, StateCap: cap2}
 			jobs = append(jobs, job(e2scen(fmt.Sprintf("E2-twoview-N4-x%d-%s-%s", x, role, an), 4, x, a, s2), per))
+			if a >= 0 {
+				// pre-commit data bound to (height, transactions) only, as a decryption share would be, and the same
+				// transactions proposed in both views: a pre-commit of view 0 then fits the pre-block of view 1, and only
+				// the library's own view filter keeps it out of the view-1 quorum
+				s2b := s2
+				s2b.TxA, s2b.TxA1 = []H{101}, []H{101}
+				s2b.Commits, s2b.Bundles = "A", false
+				tb := e2scen(fmt.Sprintf("E2-twoview-txbound-precommits-N4-x%d-%s-%s", x, role, an), 4, x, a, s2b)
+				tb.PreDataTxOnly = true
+				jobs = append(jobs, job(tb, per))
+			}
 			if x == other {
 				// a missing transaction reaches the pool (GetTx) before / instead of OnTransaction: the set is then
 				// completed by processMissingTx inside a recovery request (found D15 this way)
